@@ -16,6 +16,9 @@
 (* snapshot of the connection's frame history, taken between the arrival of *)
 (* the request's own HEADERS and the end of Marshal.                        *)
 (***************************************************************************)
+(* The reader is a handler goroutine, and a handler outlives its stream: the client may reset the request while its handler sits       *)
+(* inside Marshal.  Nothing in this module depends on whether a stream is open - Exclusion is between the serve loop's capture sites  *)
+(* and ANY reader; the gated replay therefore also runs every schedule with an RST_STREAM for request 1 in front of the later frames. *)
 EXTENDS H2FpOps
 
 CONSTANTS Locked, MaxLater
